@@ -80,7 +80,9 @@ def _as_set(vertices, op=None):
     case = kernel.LOG.case
     if isinstance(case, dict) and isinstance(case.get("S"), list) and op is not None \
             and str(case.get("op", "")).split(":")[-1] == op:
-        return {Variable(n) for n in case["S"]}
+        from .gen.graphs import node
+
+        return {node(n) for n in case["S"]}
     raise _OneShot()
 
 
